@@ -37,9 +37,9 @@ open AITB AITB.Factored AITB.Sampling
 
 /-! ## OBLIGATIONS over the regenerated source facts -/
 
-/-- the translator found all 28 functions of this round (tolerance helpers, isProbability family, index helpers, DDN row ids,
-    dynamics, rewards, copy constructor) in exactly the text the model was written from -/
-theorem sites_all_listed : AITB.Gen.C06Sites.asModelled.length = 28 := by decide
+/-- the translator found all 30 functions of this round (tolerance helpers, isProbability family, index helpers, DDN row ids,
+    dynamics, rewards, copy constructor, the two stream loaders) in exactly the text the model was written from -/
+theorem sites_all_listed : AITB.Gen.C06Sites.asModelled.length = 30 := by decide
 
 /-- the tolerance every row test uses is the documented 1e-6 (a larger `equalToleranceSmall` would silently widen every
     acceptance condition AND the slack of the checkers, which are stated in terms of `tol`) -/
